@@ -48,7 +48,9 @@ def tag_lists():
                             tl = tl + ["Zeta"]
                         out.append(tl)
     out += [None, [""], [" income"], ["income "], ["incomes"], ["transfers"], ["reinvestment"], ["in come"],
-            ["income", "income"], ["Income", "INCOME", "transfer"]]
+            ["income", "income"], ["Income", "INCOME", "transfer"],
+            ["income:salary"], ["transfer:out"], ["investment:ira"], ["Income:Salary", "food"], ["income.salary"], ["income-salary"], ["income_salary"],
+            ["x:income"], ["income:"], [":income"], ["income/salary"], ["income salary"], ["#income"], ["transfer,income"]]
     # de-duplicate, keep order
     seen, res = set(), []
     for t in out:
